@@ -240,7 +240,9 @@ static void op_gssv(hist_t *h, const char *op)
         if (!is_perm(pr, n) || !is_perm(pc, n)) step_fail(h, op, "oracle:perm_not_bijection", "simple driver returned a non-permutation");
         const char *bad = validate_LU(vt, n, &L, &U, 1, 1); if (bad) step_fail(h, op, "oracle:LU_malformed", "%s", bad);
         dense_lu *D = extract_LU(vt, n, &L, &U); csc_q F = factored_view(M); char msg[400]; double w;
-        if (check_residual(vt, &F, D, pr, pc, M->stype ? 1 : 0, bval, n, b0, n, nrhs, &w, msg, sizeof msg)) step_fail(h, op, "oracle:residual_bound", "%s", msg);
+        ld mn = INFINITY, mxu = 0; for (int j = 0; j < n; ++j) { ld a = zq_abs(D->U[(size_t)j * n + j]); if (a < mn) mn = a; if (a > mxu) mxu = a; }
+        if (mn < 100 * n * (ld)vt->eps * mxu) feat_add("solve_skipped_illcond", 1);       /* singular to working precision after a value change */
+        else if (check_residual(vt, &F, D, pr, pc, M->stype ? 1 : 0, bval, n, b0, n, nrhs, &w, msg, sizeof msg)) step_fail(h, op, "oracle:residual_bound", "%s", msg);
         h->probe_hash = fnv1a(bval, bb, fnv1a(pr, sizeof(int_t) * n, fnv1a(pc, sizeof(int_t) * n, hash_LU(vt, &L, &U))));
         free_dense_lu(D);
     } else { if (info < 0 || info > n) step_fail(h, op, "oracle:info_out_of_range", "info=%d", (int)info); h->probe_hash = fnv1a(&info, sizeof info, 0); feat_add("singular_steps", 1); }
@@ -269,6 +271,37 @@ static void hist_user_workspace(hist_t *h)
     hx_free(pc); hx_free(pr);
 }
 
+/* one-shot expert driver call on the current values (own permutation / option arrays), everything destroyed afterwards */
+static void op_gssvx(hist_t *h, const char *op)
+{
+    const slu_vt *vt = h->vt; int n = h->n; hx_matrix *M = h->M; int P = (int)opt_int(op, "P", 1);
+    int_t *pc = hx_malloc(sizeof(int_t) * (n + 1)), *pr = hx_malloc(sizeof(int_t) * (n + 1)); memcpy(pc, h->perm_c0, sizeof(int_t) * n);
+    superlumt_options_t o; memset(&o, 0, sizeof o);
+    char fb[16], tb[8]; o.nprocs = P; o.fact = parse_fact(opt_str(op, "fact", "DOFACT", fb, sizeof fb)); o.trans = parse_trans(opt_str(op, "trans", "N", tb, sizeof tb)); o.refact = NO;
+    o.panel_size = g_ienv[1]; o.relax = g_ienv[2]; o.diag_pivot_thresh = opt_dbl(op, "u", 1.0); o.usepr = NO; o.drop_tol = 0; o.SymmetricMode = opt_int(op, "symm", 0) ? YES : NO; o.PrintStat = NO;
+    o.perm_c = pc; o.perm_r = pr; o.work = NULL; o.lwork = 0;
+    o.etree = hx_malloc(sizeof(int_t) * (n + 1)); o.colcnt_h = hx_malloc(sizeof(int_t) * (n + 1)); o.part_super_h = hx_malloc(sizeof(int_t) * (n + 1));
+    if (o.trans == CONJ && vt->is_complex) hx_ctx_add("complex_conj");
+    SuperMatrix L, U, B, X; void *bval, *xval; int nrhs = (int)opt_int(op, "nrhs", 1); make_dense_B(vt, n, nrhs, n, &bval, &B, 0); make_dense_B(vt, n, nrhs, n, &xval, &X, 0);
+    void *R = hx_malloc(vt->rsize * (n + 1)), *C = hx_malloc(vt->rsize * (n + 1)), *fe = hx_malloc(vt->rsize * (nrhs + 1)), *be = hx_malloc(vt->rsize * (nrhs + 1));
+    void *a0 = hx_malloc(vt->esize * (M->nnz + 1)); memcpy(a0, M->val, vt->esize * M->nnz);
+    equed_t eq = NOEQUIL; double rpg = 0, rc = 0; superlu_memusage_t mu; int_t info = -777;
+    sched_for_op(op, P); sched_begin_factor(P);
+    g_phase = "gssvx";
+    LIB(vt->gssvx(P, &o, &M->A, pc, pr, &eq, R, C, &L, &U, &B, &X, &rpg, &rc, fe, be, &mu, &info));
+    sched_end_factor();
+    if (info == 0 || info == n + 1) {
+        const char *bad = validate_LU(vt, n, &L, &U, 1, 1); if (bad) step_fail(h, op, "oracle:LU_malformed", "%s", bad);
+        if (!is_perm(pr, n) || !is_perm(pc, n)) step_fail(h, op, "oracle:perm_not_bijection", "expert driver returned a non-permutation");
+        h->probe_hash = fnv1a(xval, vt->esize * (size_t)n * nrhs, fnv1a(pr, sizeof(int_t) * n, fnv1a(pc, sizeof(int_t) * n, hash_LU(vt, &L, &U))));
+    } else if (info < 0 || info > n + 1) step_fail(h, op, "oracle:info_out_of_range", "info=%d", (int)info);
+    else { h->probe_hash = fnv1a(&info, sizeof info, 0); feat_add("singular_steps", 1); }
+    g_track = 1; Destroy_SuperNode_SCP(&L); Destroy_CompCol_NCP(&U); g_track = 0;
+    memcpy(M->val, a0, vt->esize * M->nnz);      /* undo equilibration so that later steps see the caller's values */
+    feat_add("gssvxs", 1);
+    hx_free(pc); hx_free(pr); hx_free(o.etree); hx_free(o.colcnt_h); hx_free(o.part_super_h); hx_free(bval); hx_free(xval); hx_free(B.Store); hx_free(X.Store); hx_free(R); hx_free(C); hx_free(fe); hx_free(be); hx_free(a0);
+}
+
 static void hist_init(hist_t *h)
 {
     memset(h, 0, sizeof *h);
@@ -290,6 +323,7 @@ static void run_history(hist_t *h, int rep)
         else if (!strncmp(op, "SOLVE", 5)) op_solve(h, op);
         else if (!strncmp(op, "DESTROY", 7)) op_destroy(h);
         else if (!strncmp(op, "OTHER", 5)) op_other(h, op);
+        else if (!strncmp(op, "GSSVX", 5)) op_gssvx(h, op);
         else if (!strncmp(op, "GSSV", 4)) op_gssv(h, op);
         else if (!strncmp(op, "VALUES", 6)) { char mb[16]; change_values(h, opt_str(op, "vals", "scale", mb, sizeof mb), (uint64_t)opt_int(op, "vseed", 1)); }
     }
